@@ -21,14 +21,15 @@ import (
 // or allocate for announced lengths whose bytes have not arrived.
 func c08(args []string) int {
 	run := NewRun("C08", args)
-	run.Sum.Rule = "h2: (a) frame streams with single-field corruptions (every length field to 0,1,2,3,truth+-1,0x7fff,0xffff,0xffffff,2^20(+1); type, flags, stream id, payload bytes, pad lengths, truncation) and random bytes to MFramer.ReadFrame under recover() with a 5 s watchdog, whole and chunked; (b) HPACK blocks: corruptions of valid representation sequences (truncation, bit flips, over-long varints, announced huge strings, EOS / over-long padding), with and without SetMaxStringLength / SetEmitEnabled(false); (c) Huffman decoder and varint decoder on corrupted and random input; (e) SETTINGS_MAX_FRAME_SIZE values inside and outside the RFC range sent to a real MClientConn followed by a request with a 40 kB body (sender must finish or the setting must be refused); (d) allocation probes: announced lengths up to 2^31 with no bytes behind them, runtime.MemStats TotalAlloc delta. Non-trivial: every case; distinct by input bytes."
+	run.Sum.Rule = "h2: (a) frame streams with single-field corruptions (every length field to 0,1,2,3,truth+-1,0x7fff,0xffff,0xffffff,2^20(+1); type, flags, stream id, payload bytes, pad lengths, truncation) and random bytes to MFramer.ReadFrame under recover() with a 5 s watchdog, whole and chunked; (b) HPACK blocks: corruptions of valid representation sequences (truncation, bit flips, over-long varints, announced huge strings, EOS / over-long padding), with and without SetMaxStringLength / SetEmitEnabled(false); (c) Huffman decoder and varint decoder on corrupted and random input; (c') every representation kind x every integer field (index with 7/6/4-bit prefix, table-size update, name/value length raw and Huffman) x extreme varints the decoder still accepts (2^31+-1, 2^32+-1, 2^62, 2^63-1, 2^63, 2^63+k for k around the static table length up to 126, the largest accepted value and one beyond), on a fresh and on a populated table, directly and inside a HEADERS frame through MFramer; (e) SETTINGS_MAX_FRAME_SIZE values inside and outside the RFC range sent to a real MClientConn followed by a request with a 40 kB body (sender must finish or the setting must be refused); (d) allocation probes: announced lengths up to 2^31 with no bytes behind them, runtime.MemStats TotalAlloc delta. Non-trivial: every case; distinct by input bytes."
 	ss := newShardSet(run)
 	compareReference = false
-	framesStreams(run, ss, "c08", false, run.N(150, 2000), false)
+	framesStreams(run, ss, "c08", false, run.N(100, 2000), false)
 	framesRandom(run, ss, run.N(60, 1000))
-	hpackReprSessions(run, ss, run.N(150, 2500), true)
-	hpackKnobSessions(run, ss, run.N(80, 1200))
+	hpackReprSessions(run, ss, run.N(100, 2500), true)
+	hpackKnobSessions(run, ss, run.N(50, 1200))
 	hpackIntsMalformed(run, ss)
+	hpackExtremeInts(run, ss)
 	hpackHuffmanMalformed(run, ss)
 	allocProbes(run)
 	clientSettingsProbes(run)
@@ -64,7 +65,7 @@ func framesRandom(run *Run, ss *shardSet, n int) {
 
 func hpackIntsMalformed(run *Run, ss *shardSet) {
 	r := run.R
-	for i := 0; i < run.N(300, 3000); i++ {
+	for i := 0; i < run.N(200, 3000); i++ {
 		if abortRun {
 			return
 		}
@@ -102,7 +103,7 @@ func hpackIntsMalformed(run *Run, ss *shardSet) {
 
 func hpackHuffmanMalformed(run *Run, ss *shardSet) {
 	r := run.R
-	for i := 0; i < run.N(400, 5000); i++ {
+	for i := 0; i < run.N(250, 5000); i++ {
 		if abortRun {
 			return
 		}
@@ -240,6 +241,88 @@ func clientSettingsProbes(run *Run) {
 			}
 			if got != len(body) {
 				run.Fail("h2conn:client-body-not-written", fmt.Sprintf("SETTINGS_MAX_FRAME_SIZE=%d: %d of %d body bytes written", v, got, len(body)), rep)
+			}
+		}
+	}
+}
+
+// hpackExtremeInts: for EVERY representation kind and prefix width, and for every integer FIELD (index, string
+// length of name / value with and without the Huffman flag, table-size update), varints at the extremes
+// readVarInt still accepts: 2^31+-1, 2^32+-1, 2^62, 2^63-1, 2^63, 2^63+k (k around the static table length and up
+// to 126), the largest accepted value 2^63-1+2^n-1, and one value beyond it.  Fed to hpack.Decoder (fresh and
+// with a populated dynamic table) and, inside a HEADERS frame, to MFramer.ReadFrame, under recover().
+func hpackExtremeInts(run *Run, ss *shardSet) {
+	sw := srcSwitches()
+	vals := func(n uint) []uint64 {
+		max := uint64(1<<63-1) + (uint64(1)<<n - 1)
+		vs := []uint64{1<<31 - 1, 1 << 31, 1<<31 + 1, 1<<32 - 1, 1 << 32, 1<<32 + 1, 1 << 62, 1<<63 - 1, 1 << 63}
+		for _, k := range []uint64{1, 2, 59, 60, 61, 62, 63, 64, 100, 125, 126, 127, 128, 254} {
+			vs = append(vs, 1<<63+k)
+		}
+		vs = append(vs, max-1, max, max+1)
+		return vs
+	}
+	type kind struct {
+		name string
+		n    uint
+		flag byte
+		pre  []byte // bytes before the integer
+		post []byte // bytes after it (so that smaller values would be complete representations)
+	}
+	kinds := []kind{
+		{"indexed", 7, 0x80, nil, nil},
+		{"literal-incr-index", 6, 0x40, nil, []byte{1, 'v'}},
+		{"literal-plain-index", 4, 0x00, nil, []byte{1, 'v'}},
+		{"literal-never-index", 4, 0x10, nil, []byte{1, 'v'}},
+		{"size-update", 5, 0x20, nil, nil},
+		{"name-length-raw", 7, 0x00, []byte{0x40}, []byte{1, 'v'}},
+		{"name-length-huffman", 7, 0x80, []byte{0x00}, []byte{1, 'v'}},
+		{"value-length-raw", 7, 0x00, []byte{0x41}, nil},
+		{"value-length-huffman", 7, 0x80, []byte{0x10, 1, 'n'}, nil},
+	}
+	// a first block that puts three entries into the dynamic table
+	fill := []byte{0x40, 1, 'a', 1, 'b', 0x40, 1, 'c', 1, 'd', 0x40, 1, 'e', 1, 'f'}
+	for _, k := range kinds {
+		for _, v := range vals(k.n) {
+			if abortRun {
+				return
+			}
+			blk := append([]byte(nil), k.pre...)
+			blk = appendInt(blk, k.n, v, k.flag, nil)
+			blk = append(blk, k.post...)
+			for _, populated := range []bool{false, true} {
+				md := newMosnDec(4096)
+				var ops []dop
+				if populated {
+					ops = append(ops, dop{Kind: "write", P: fill}, dop{Kind: "close"})
+				}
+				ops = append(ops, dop{Kind: "write", P: blk}, dop{Kind: "close"})
+				obs := runDec(md, ops)
+				last := obs[len(obs)-1].Class
+				rep := map[string]interface{}{"part": "hpack-extreme-int", "kind": k.name, "value": fmt.Sprint(v), "block": Hex(blk), "populated": populated}
+				if last == "WPanic" || last == "WFuel" {
+					run.Fail("hpack:decoder-panic-or-hang", fmt.Sprintf("hpack.Decoder on a %s field carrying the integer %d (block %x): %s", k.name, v, blk, last), rep)
+					continue
+				}
+				fin, _ := md.table()
+				ss.add("decx", hpackHeader, "dec_case", "dec_mismatches", 200, coqDecCase(4096, ops[:len(obs)], obs, fin), rep)
+				run.Count(fmt.Sprintf("xint|%s|%d|%v", k.name, v, populated), true, "hpack-extreme-int:"+k.name, "hpack-extreme-int-class:"+last)
+			}
+			// the same block inside a HEADERS frame through the frame reader (readMetaFrame)
+			frame := append([]byte{byte(len(blk) >> 16), byte(len(blk) >> 8), byte(len(blk)), 1, 4, 0, 0, 0, 1}, blk...)
+			evs, residue, dead := runMosn(sw["h2_dispatch_continues"], [][]byte{frame})
+			rep := map[string]interface{}{"part": "hpack-extreme-int-frame", "kind": k.name, "value": fmt.Sprint(v), "stream": Hex(frame)}
+			bad := false
+			for _, e := range evs {
+				if e.Err == "PANIC" || e.Err == "HANG" {
+					bad = true
+					run.Fail("h2frame:reader-panic-or-hang", fmt.Sprintf("MFramer.ReadFrame %s on a HEADERS frame whose %s field carries the integer %d", e.Err, k.name, v), rep)
+				}
+			}
+			if !bad {
+				ss.add("frx", frameHeader, "fr_case", "fr_mismatches", 200,
+					fmt.Sprintf("(%s, [[]], %s, %s, %s)", cb(frame), eventsCoq(evs), CoqN(uint64(residueIfAlive(residue, dead))), CoqBool(dead)), rep)
+				run.Count(fmt.Sprintf("xintf|%s|%d", k.name, v), true, "hpack-extreme-int-frame")
 			}
 		}
 	}
